@@ -32,7 +32,7 @@
  *                fields through http_request_parse_header() / http_request_headers_process_h2()
  *     (a request from another peer address than the previous one is a new connection)
  *   -> "<parseopts> <lc>" then per request
- *      "<status>,<uri.path>,<pathinfo>,<remote addr>,<file sent below docroot | ->"
+ *      "<status>,<uri.path>,<pathinfo>,<remote addr>,<content of the file sent (= its canonical path) | ->"
  *      (uri.path and pathinfo are "-" when the request head was rejected by the parser)
  * The document root ($LTV_C03_ROOT/docroot) and the user file ($LTV_C03_ROOT/users.txt) are
  * prepared by the check module; this harness only writes its configuration file there.
@@ -530,9 +530,15 @@ static int run_req(char *req) {
     fputc(',', stdout);
     ltv_puthex(r->dst_addr_buf->ptr, buffer_clen(r->dst_addr_buf));
     fputc(',', stdout);
-    /* which file (if any) is in the response body */
+    /* which file (if any) is in the response body: identified by its CONTENT (every file of the
+     * tree holds its own canonical path), not by the spelling of the name it was opened under */
     const chunk *c = r->write_queue.first;
-    if (c && c->type == FILE_CHUNK && 200 == r->http_status) put_below_docroot(c->mem);
+    if (c && c->type == FILE_CHUNK && 200 == r->http_status) {
+        char fbuf[1024];
+        ssize_t fn = (c->file.fd >= 0) ? pread(c->file.fd, fbuf, sizeof(fbuf), 0) : -1;
+        if (fn > 0) ltv_puthex(fbuf, (size_t)fn);
+        else { fputc('?', stdout); put_below_docroot(c->mem); }
+    }
     else fputc('-', stdout);
     free(blk);
     return 1;
